@@ -392,7 +392,8 @@ def lean_waivers() -> dict[str, list[str]]:
 
 E2E = {
     "amax_no_dim": ("C16-required-unbound", "torch.amax(x) [aten::amax, dim omitted]"),
-    "rand_like_memory_format": ("C16-kw-rejected", "torch.rand_like(x, memory_format=torch.preserve_format) [aten::rand_like]"),
+    # fixed by 50e6b6d (C16-kw-rejected-like-ops): must export now; reproducing again is a VIOLATION
+    "rand_like_memory_format": ("FIXED", "torch.rand_like(x, memory_format=torch.preserve_format) [aten::rand_like]"),
     "mean_dtype": ("C16-nondroppable-dropped", "x.mean(dtype=torch.float64) [aten::mean, dtype silently dropped]"),
 }
 
@@ -633,7 +634,9 @@ def main(run: core.Run) -> None:
         except Exception as e:
             ok, detail = False, f"witness could not run: {type(e).__name__}"
         e2e[which] = {"reproduces": ok, "detail": detail}
-        if ok:
+        if ok and fid == "FIXED":
+            problems.append({"kind": "e2e", "qualified": which, "detail": f"{what}: {detail} (was fixed; the failure is back)"})
+        elif ok:
             known_rows.setdefault(fid, [])
     run.coverage["e2e_exporter_witnesses"] = e2e
     findings = {f["id"]: f for f in run.open_findings()}
